@@ -1130,7 +1130,11 @@ func cmdParamNames(args []string) int {
 			for _, p := range fn.Params {
 				names = append(names, p.Name())
 			}
-			fmt.Printf("%s\t%d\t%s\n", bc.File, bc.Line, strings.Join(names, ", "))
+			var free []string
+			for _, fv := range fn.FreeVars {
+				free = append(free, fv.Name())
+			}
+			fmt.Printf("%s\t%d\t%s\t%s\n", bc.File, bc.Line, strings.Join(names, ", "), strings.Join(free, ", "))
 		}
 	}
 	return 0
